@@ -445,6 +445,38 @@ class Engine:
                 return True
         return False
 
+    @staticmethod
+    def _at(obj, path):
+        for n_ in path:
+            obj = ("fld", obj, n_)
+        return obj
+
+    def scalar_leaves(self, rid, depth=0):
+        """member paths of a small aggregate made of scalars (nested aggregates of scalars included); None for anything else"""
+        if not hasattr(self, "_leaves"):
+            self._leaves = {}
+        if rid in self._leaves:
+            return self._leaves[rid]
+        rec = self.db.rec_by_id.get(rid) if rid is not None else None
+        out = None
+        if rec and not (rec.get("n") or "").startswith("std::") and rec.get("fields") and len(rec["fields"]) <= 8 and depth < 3 and not rec.get("bases"):
+            out = []
+            for fl in rec["fields"]:
+                ft = fl.get("t") or {}
+                if self.is_rec(ft):
+                    sub = self.scalar_leaves(ft.get("rid"), depth + 1)
+                    if sub is None:
+                        out = None
+                        break
+                    out += [(fl["n"],) + p_ for p_ in sub]
+                elif ft.get("k") in ("int", "bool", "enum", "ptr", "fnptr", "float") and not ft.get("ref"):
+                    out.append((fl["n"],))
+                else:
+                    out = None
+                    break
+        self._leaves[rid] = out
+        return out
+
     def copy_object(self, st, dst, src):
         if dst == src:
             return
@@ -753,6 +785,9 @@ class Engine:
                 t = e.get("t") or {}
                 if k == "call" and not self.is_rec(t) and not t.get("ref") and not e.get("lv") and not (e.get("xv") and (e.get("fn") or {}).get("n") == "std::get"):
                     # scalar prvalue bound to a reference: materialise
+                    if isinstance(v, tuple) and v[:1] == ("tmp",) and v[-1] == "mat" and v in s.mem and (e.get("fn") or {}).get("n") in IDENTITY_FUNCS:
+                        outs.append((s, v))     # std::forward / std::move of an already materialised temporary: that temporary
+                        continue
                     obj = self.fresh("tmp", "mat")
                     s.mem[obj] = v
                     outs.append((s, obj))
@@ -1193,6 +1228,20 @@ class Engine:
             # implicitly-defined / defaulted copy or move assignment: member-wise copy, yields the object assigned to
             dst = self.deref(thisv)
             src = av[0]
+            rid_ = (fdecl or {}).get("rid")
+            if rid_ is None and isinstance(e, dict):
+                ot_ = ((e.get("obj") or (e.get("args") or [{}])[0]) or {}).get("t") or {}
+                rid_ = ot_.get("rid")
+            leaves = self.scalar_leaves(rid_)
+            if leaves is not None and dst != src:
+                # a small aggregate of scalars: the member-wise assignment spelled out, so that `slot = slot_t{}` and
+                # `slot.key = nullptr; slot.fn = nullptr;` are the same stores
+                vals_ = [(path, self.load(st, self._at(src, path))) for path in leaves]
+                self.copy_object(st, dst, src)
+                self.emit(st, "COPY", dst, src, loc=loc, extra={"assign": True, "memberwise": True})
+                for path, v_ in vals_:
+                    self.store(st, self._at(dst, path), v_, loc=loc)
+                return [(st, dst)]
             self.copy_object(st, dst, src)
             self.emit(st, "COPY", dst, src, loc=loc, extra={"assign": True})
             return [(st, dst)]
@@ -1877,6 +1926,26 @@ class Engine:
 
     def exec_loop(self, st, fr, s):
         kind = s["s"]
+        # `while (true) { if (c) break; rest }`  ==  `while (!c) { rest }`  (also `for (init;; inc)`)
+        c0 = self._strip_e(s.get("c")) if s.get("c") is not None else None
+        if kind in ("while", "for") and (c0 is None or (isinstance(c0, dict) and "cv" in c0 and int(c0["cv"]) != 0)) and isinstance(s.get("body"), dict) and s["body"].get("s") == "block" and s["body"].get("b"):
+            first = s["body"]["b"][0]
+            if isinstance(first, dict) and first.get("s") == "if" and first.get("else") is None and not first.get("init") and not first.get("condvar"):
+                th = first.get("then")
+                while isinstance(th, dict) and th.get("s") == "block" and len(th.get("b") or []) == 1:
+                    th = th["b"][0]
+                if isinstance(th, dict) and th.get("s") == "break":
+                    cond = first["c"]
+                    inner = self._strip_e(cond)
+                    if isinstance(inner, dict) and inner.get("k") == "un" and inner.get("op") == "!":
+                        ncond = inner["e"]
+                    elif isinstance(inner, dict) and inner.get("k") == "call" and ((inner.get("fn") or {}).get("n") or "").endswith("operator==") and len(inner.get("args") or []) == 2:
+                        # it == c.end()  ->  it != c.end(): the negated comparison is spelled as the library's operator!= so that the
+                        # iterator-walk abstraction recognises it
+                        ncond = dict(inner, fn=dict(inner["fn"], n=inner["fn"]["n"][:-len("operator==")] + "operator!=", id=None), negated_eq=True)
+                    else:
+                        ncond = {"k": "un", "op": "!", "e": cond, "t": cond.get("t"), "loc": cond.get("loc")}
+                    s = dict(s, c=ncond, body=dict(s["body"], b=s["body"]["b"][1:]))
         fr.cleanups.append([])
         states = [st]
         if kind == "for" and s.get("init"):
